@@ -9,11 +9,13 @@ from props.scalarfam import (op_line, correspond_scalar, new_stats, finish, budg
 warnings.filterwarnings("ignore")
 
 
-def gen_par(rng, typed=False):
+def gen_par(rng, typed=False, wide=True):
     zm = float(rng.uniform(1.5, 30))
     z0 = float(zm * 10 ** rng.uniform(-3, -1))
     ustar = float(rng.uniform(0.1, 0.8))
-    x = float(rng.choice([-10 ** rng.uniform(-2.5, 0.2), 10 ** rng.uniform(-2.5, 0.0)]))
+    # stability zm/L from strongly unstable (-8) through near-neutral to strongly stable (+5): the published formulas are stated for every zm/L
+    x = float(rng.choice([-10 ** rng.uniform(-2.5, 0.9), 10 ** rng.uniform(-2.5, 0.7)])) if wide else \
+        float(rng.choice([-10 ** rng.uniform(-2.5, 0.2), 10 ** rng.uniform(-2.5, 0.0)]))
     L = float(zm / x)
     if rng.random() < 0.08:
         L = float(rng.choice([np.inf, -np.inf]))     # exactly neutral stratification given as an infinite Obukhov length
@@ -21,7 +23,7 @@ def gen_par(rng, typed=False):
     from bldfm.pbl_model import psi
     ws = float(ustar / 0.4 * (np.log(zm / z0) + float(psi(zm / L))) * rng.uniform(0.8, 1.25))
     if ws <= 0.2:
-        return gen_par(rng, typed)
+        return gen_par(rng, typed, wide)
     sv = float(rng.uniform(0.2, 1.5))
     res = float(rng.choice([1.0, 2.0, 5.0, 2.5]))
     return dict(zm=zm, z0=z0, ws=ws, ustar=ustar, L=L, sigma_v=sv, res=res)
@@ -256,7 +258,7 @@ def run(rng, tier, deep):
                                   half_cells=[(0, 0), (int(rng.integers(-3, 9)), 0), (int(rng.integers(-3, 9)), int(rng.integers(-4, 5)))][int(rng.integers(3))],
                                   wd=float(rng.uniform(0, 360)), mxy=[float(rng.normal() * 3), float(rng.normal() * 3)]))
     for _ in range(budget(tier, deep, 6, 60)):
-        p = gen_par(rng)
+        p = gen_par(rng, wide=False)     # the refinement sequence and its 5e-5 target are tuned to moderate stability (|zm/L| <= 1.6)
         run_oracle(st, o_mass, dict(p=p, N=int(rng.integers(25, 75)), res0=float(p["zm"] * 0.8)))
     for _ in range(budget(tier, deep, 10, 100)):
         run_oracle(st, o_z0, dict(outliers=int(rng.choice([0, 0, 1, 3, 8])), seed=int(rng.integers(1 << 30)), n=int(rng.integers(50, 400)), zm=float(rng.uniform(2, 30)),
